@@ -406,3 +406,48 @@ class GenerateObjectId(Contract):
             allids = [T(v) for v in inp["ids"].values()]
             yield ("generated ids are positive and unused", conj(z3.And(x >= 1, conj(x != y for y in allids)) for x in g))
             yield ("never the same id twice", z3.And(g[0] != g[1], g[0] != g[2], g[1] != g[2]))
+
+
+for _how in ("erase_lanelet_network, then add a network", "replace_lanelet_network"):
+
+    @register
+    class GenerateAcrossNetworkReplacement(Contract):
+        prop = "C09"
+        target = SQ + "generate_object_id"
+        case = "generate, %s, generate (scenario holds nothing but the network)" % _how
+        how = _how
+        describe = "an id that was generated stays reserved when the network (the scenario's only content) is erased or replaced: it is not generated a second time"
+
+        def build(self, F):
+            a, b, c, d = (new_id(F, n) for n in ("old_la1", "old_la2", "new_la1", "new_la2"))
+            F.assume(z3.And(T(a) != T(b), T(c) != T(d)))
+            sc = F.new(Scenario, 0.1)
+            net = F.new(LaneletNetwork)
+            F.ok(lambda: F.method(net, "add_lanelet", mk_lanelet(F, a, None, None, 0.0)))
+            F.ok(lambda: F.method(net, "add_lanelet", mk_lanelet(F, b, None, None, 2.0)))
+            F.ok(lambda: F.method(sc, "add_objects", net))
+            net2 = F.new(LaneletNetwork)
+            F.ok(lambda: F.method(net2, "add_lanelet", mk_lanelet(F, c, None, None, 4.0)))
+            F.ok(lambda: F.method(net2, "add_lanelet", mk_lanelet(F, d, None, None, 6.0)))
+            return {"sc": sc, "net2": net2, "new": (c, d), "args": []}
+
+        def invoke(self, F, inp):
+            sc = inp["sc"]
+            g1 = F.method(sc, "generate_object_id")
+            # the new network does not use the reserved id (otherwise adding it is refused or the id is simply in use)
+            F.assume(z3.And(T(inp["new"][0]) != T(g1), T(inp["new"][1]) != T(g1)))
+            if self.how.startswith("erase"):
+                F.method(sc, "erase_lanelet_network")
+                F.method(sc, "add_objects", inp["net2"])
+            else:
+                F.method(sc, "replace_lanelet_network", inp["net2"])
+            g2 = F.method(sc, "generate_object_id")
+            g3 = F.method(sc, "generate_object_id")
+            return [g1, g2, g3]
+
+        def post(self, F, inp, out):
+            yield ("raises nothing", out.exc is None)
+            if out.exc is None:
+                g = [T(x) for x in out.value]
+                yield ("ids generated afterwards are unused", conj(z3.And(x >= 1, x != T(inp["new"][0]), x != T(inp["new"][1])) for x in g[1:]))
+                yield ("never the same id twice", z3.And(g[0] != g[1], g[0] != g[2], g[1] != g[2]))
